@@ -1,5 +1,8 @@
 use super::{Type, Typed, Variable};
 use derive_more::Display;
+#[cfg(simplesl_verif)]
+use simplesl_verif_seams::sync::RwLock;
+#[cfg(not(simplesl_verif))]
 use std::sync::RwLock;
 
 #[derive(Display)]
